@@ -373,13 +373,20 @@ where
                 return self.check_end(incomplete_pos);
             } else if !make_room || self.buf_pos.pos.0 == 0 {
                 // first record already incomplete -> buffer too small
-                self.grow()?;
+                if let Err(e) = self.grow() {
+                    // the record cannot be completed, parsing ends here
+                    self.state = State::Finished;
+                    return Err(e);
+                }
             } else {
                 // not the first record -> buffer may be big enough
                 self.make_room(incomplete_pos);
             }
 
-            fill_buf(&mut self.buf_reader)?;
+            if let Err(e) = fill_buf(&mut self.buf_reader) {
+                self.state = State::Finished;
+                return Err(e.into());
+            }
 
             if let Some(pos) = self.search_incomplete(incomplete_pos)? {
                 incomplete_pos = pos;
